@@ -4767,6 +4767,7 @@ func (t *Terminal) Loop() error {
 						}
 						wasHidden := t.pwindow == nil
 						t.fullRedraw()
+						verifTrace("term.redraw", t.tui.MaxX(), t.tui.MaxY(), "")
 						if wasHidden && t.hasPreviewWindow() {
 							refreshPreview(t.previewOpts.command)
 						}
